@@ -443,6 +443,23 @@ def check_wrapper(run, pkg, wname, inner):
            witness=None if ok_l else "another list returned", loc=fi.loc())
 
 
+    # file order: nothing reorders the list of frames between the appends and the return
+    import ast as _ast
+    reorder = []
+    for c in _ast.walk(fi.node):
+        if isinstance(c, _ast.Call) and isinstance(c.func, _ast.Attribute) and c.func.attr in ("sort", "reverse") and not isinstance(c.func.value, _ast.Call):
+            reorder.append(c)
+        elif isinstance(c, _ast.Call) and isinstance(c.func, _ast.Name) and c.func.id in ("sorted", "reversed"):
+            reorder.append(c)
+    rv = kw_.get("snapshots")
+    if rv is not None and rv[0] == "sub" and rv[2][0] == "slice" and rv[2][3] not in (NONE, C(1)):
+        reorder.append(None)
+    run.ob("R-LOOPDOM", fq, "file-order", False if reorder else True, "snapshots are returned in the order the frames have in the file (no sorting / reversing of the list)",
+           _ast.unparse(reorder[0])[:80] if reorder and reorder[0] is not None else ("strided list" if reorder else "no reordering call"),
+           witness=None if not reorder else "a dump whose TIMESTEP values are not increasing in file order (a second run appended after reset_timestep 0): the frames come back in another order than the file has them",
+           loc=fi.loc(reorder[0]) if reorder and reorder[0] is not None else fi.loc(), sound=True)
+
+
 def check_dispatch(run, pkg):
     mi = pkg.module("reader.dump_reader")
     it = interp(pkg, "reader.dump_reader.DumpReader.read_onefile")
